@@ -15,9 +15,10 @@ case "$patch" in
   *) ( cd $d/repo && git apply --unsafe-paths -p1 "$patch" 2>/dev/null || patch -p1 -s < "$patch" ) || { echo "patch failed"; exit 2; } ;;
 esac
 ( cd $d/repo && diff -ru /repo/src src | grep -E "^[+-]" | grep -vE "^(\+\+\+|---)" | head -12 )
-export CACHED_SRC=$d/repo/src CARGO_TARGET_DIR=/tmp/mt/target CARGO_NET_OFFLINE=true
+lane="${LANE:-0}"; tgt=/tmp/mt/target; [ "$lane" != 0 ] && tgt=/tmp/mt/target-$lane   # parallel lanes build in separate target dirs
+export CACHED_SRC=$d/repo/src CARGO_TARGET_DIR=$tgt CARGO_NET_OFFLINE=true
 ( cd ${MC_SRC:-/verif/mc} && cargo build --release --offline 2>$d/build.log >/dev/null ) || { echo "BUILD FAILED"; grep -E "^error" -A6 $d/build.log | head -30; exit 2; }
-cp /tmp/mt/target/release/mc $d/mc
+cp $tgt/release/mc $d/mc
 caught=""
 for id in $ids; do
   out=$($d/mc run $id --tier $tier --evidence $d/ev --known /verif/known_findings.jsonl 2>$d/$id.err); rc=$?
